@@ -10,11 +10,12 @@ patterns in decimal (exact in both directions).
       maxIter : natural or `d` (generated settings default);  value : bit pattern or `-` (None)
       A_k, M_k : matrices `r1c1,r1c2;…` of bit patterns (`-` for "no preconditioner")
       col_j : `k:rhs:shifts`
-    → `iters=.. x=<col|col|…> (col = vec;vec;… one per shift) trace=<call|call|…> convs=<..>`
+    → `iters=.. x=<col|col|…> (col = vec;vec;… one per shift) trace=<call|call|…> convs=<..> betas=<..> scales=<col|col|…>`
   `shape <shiftShape|none> <prodShape> <vec 0|1>` → `shape=<dims>`
   `ciq n nodes inverse shiftOffset pi lanczosEigs diag kp sn cn dn A M rhs tol maxIter`
     → `k2=<min/max> shifts=<..> weights=<..> noshift=<vec> solves=<vec;vec;…>`
   `rot k`  → buffers denoted by the rotating names after k executions of the (generated) rotation block
+  `rotshift k` → buffers denoted by `zvec_*`, `prod`, `qvec_*` after k iterations (fresh `prod` / `qvec_curr` every iteration)
 -/
 open LinOp LinOp.C11 LinOp.Parse
 
@@ -73,7 +74,8 @@ def runMinres (args : List String) : String :=
           let xs := "|".intercalate (o.x.map fun col => ";".intercalate (col.map showVec))
           let tr := "|".intercalate (o.amulTrace.map fun call => ";".intercalate (call.map showVec))
           let bs := "|".intercalate (o.betas.map (showList showF))
-          s!"iters={o.iters} x={xs} trace={tr} convs={showList showF o.convs} betas={bs}"
+          let scs := "|".intercalate (o.scales.map (showList showF))
+          s!"iters={o.iters} x={xs} trace={tr} convs={showList showF o.convs} betas={bs} scales={scs}"
         | none => "bad-cols"
       | _, _ => "bad-mats"
     | _, _, _, _, _, _ => "bad-args"
@@ -120,12 +122,23 @@ def runRot (args : List String) : String :=
     | none => "bad-args"
   | _ => "bad-line"
 
+def runRotShift (args : List String) : String :=
+  match args with
+  | [k] =>
+    match k.toNat? with
+    | some k =>
+      let st := allocN Generated.C11.rotShift shiftFresh k (env0 shiftNames, shiftNames.length)
+      "rotshift=" ++ ",".intercalate (shiftNames.map fun x => x ++ ":" ++ toString (st.1.get x)) ++ s!" next={st.2}"
+    | none => "bad-args"
+  | _ => "bad-line"
+
 def runLine (line : String) : String :=
   match words line with
   | "minres" :: rest => runMinres rest
   | "shape" :: rest => runShape rest
   | "ciq" :: rest => runCiq rest
   | "rot" :: rest => runRot rest
+  | "rotshift" :: rest => runRotShift rest
   | _ => "bad-line"
 
 def main : IO Unit := do
